@@ -3,6 +3,16 @@
 //   tsig.dss.verify p q g y m r s tag:<class> => 0|1
 #include "common.hh"
 
+static std::string oracle_log_t()
+{
+	std::vector<std::string> qs; qs.swap(hashlog.shash_inputs); hashlog.raw.clear();
+	bool was = hashlog.log; hashlog.log = false;
+	std::string s = "[";
+	for (size_t i = 0; i < qs.size(); i++) { Z a; tmcg_mpz_shash(a, qs[i]); if (i) s += ","; s += hexs(qs[i]) + ":" + a.str(); }
+	hashlog.log = was;
+	return s + "]";
+}
+
 static int drv_tsig(const Opts &o)
 {
 	SplitMix g(o.seed ^ 0x74736967);
@@ -68,6 +78,43 @@ static int drv_tsig(const Opts &o)
 		mpz_set_ui(w, 1); run(w, m, r, s, "key=1");
 		// a forgery for the key y' = 1: r = (g^k mod p) mod q, s = k^{-1} m
 		mpz_invert(v, k, sg.q); mpz_mul(v, v, m); mpz_mod(v, v, sg.q); if (mpz_sgn(v)) run(w, m, r, v, "key=1-forged");
+		// ------------------------------------------------ threshold Schnorr verifier (GJKR NTS)
+		{
+			GennaroJareckiKrawczykRabinNTS nts(3, 1, 0, sg.p, sg.q, sg.g, h, pbits, qbits, false, false);
+			hashlog.log = true; oracle_log_t();
+			// textbook signature: r = g^k, c = H(m, r), s = k + c x mod q
+			Z R, cc, ss;
+			mpz_powm(R, sg.g, k, sg.p); tmcg_mpz_shash(cc, 2, (mpz_srcptr)m, (mpz_srcptr)R); oracle_log_t();
+			mpz_mul(ss, cc, x); mpz_add(ss, ss, k); mpz_mod(ss, ss, sg.q);
+			auto runn = [&](mpz_srcptr yy, mpz_srcptr mm, mpz_srcptr c2, mpz_srcptr s2, const std::string &tag) {
+				mpz_set(nts.y, yy); oracle_log_t();
+				std::string out = guarded([&]() { return std::string(nts.Verify(mm, c2, s2) ? "1" : "0"); });
+				emit("tsig.nts.verify " + sg.p.str() + " " + sg.q.str() + " " + sg.g.str() + " " + zs(yy) + " " + zs(mm) + " " + zs(c2) + " " + zs(s2) + " " + oracle_log_t() + " tag:" + tag + " => " + out);
+			};
+			Z v, w;
+			runn(y, m, cc, ss, "valid");
+			mpz_add(v, ss, sg.q); runn(y, m, cc, v, "s+q");
+			mpz_sub(v, ss, sg.q); runn(y, m, cc, v, "s-q");
+			mpz_neg(v, ss); runn(y, m, cc, v, "-s");
+			mpz_add_ui(v, ss, 1); runn(y, m, cc, v, "s+1");
+			mpz_set_ui(v, 0); runn(y, m, cc, v, "s=0"); runn(y, m, v, ss, "c=0");
+			runn(y, m, cc, sg.q, "s=q");
+			mpz_sub_ui(v, sg.q, 1); runn(y, m, cc, v, "s=q-1");
+			mpz_add(v, cc, sg.q); runn(y, m, v, ss, "c+q");       // same residue mod q, but c is compared with the hash value itself
+			mpz_mod(v, cc, sg.q); if (mpz_cmp(v, cc)) runn(y, m, v, ss, "c-mod-q");
+			mpz_add_ui(v, cc, 1); runn(y, m, v, ss, "c+1");
+			mpz_neg(v, cc); runn(y, m, v, ss, "-c");
+			mpz_add_ui(v, m, 1); runn(y, m, v, ss, "swapped-m-c"); runn(y, v, cc, ss, "m+1");
+			mpz_add(v, m, sg.q); runn(y, v, cc, ss, "m+q");         // m is hashed as it is: a different message
+			gen_below(v, g, sg.q); gen_bits(w, g, 256); runn(y, m, w, v, "random");
+			gen_below(v, g, sg.q); mpz_powm(w, sg.g, v, sg.p); runn(w, m, cc, ss, "otherkey");
+			mpz_sub(w, sg.p, y); runn(w, m, cc, ss, "key=-y");
+			mpz_add(w, y, sg.p); runn(w, m, cc, ss, "key=y+p");
+			mpz_set_ui(w, 1); runn(w, m, cc, ss, "key=1");
+			// a signature made for the key y' = -y (outside the group) by the holder of x: c = H(m, g^k), s = k + c x;
+			// g^s (-y)^{-c} = g^k (-1)^c: accepted for even c
+			hashlog.log = false;
+		}
 	}
 	return 0;
 }
